@@ -4,8 +4,8 @@ tables, evaluate the referential-integrity invariant on the real net.
 The *relational view* of a net (what `observe` returns and what coq/C22/Model.v models):
   bus      : [[id, in_service]]
   el[kind] : [[id, [bus refs in column order], id_characteristic_table|None, in_service]]
-  sw       : [[id, bus, et, element]]
-  meas     : [[id, element_type, element, side]]         side: None | str | int(bus)
+  sw       : [[id, bus, et, element, closed]]
+  meas     : [[id, element_type, element, side, measurement_type]]         side: None | str | int(bus)
   pcost / wcost : [[id, et, element]]
   grp      : [[gid, element_type, [members], reference_column|None]]
   ctrl     : [[id, element, [element_index], single]]
@@ -59,11 +59,12 @@ def observe(net):
         r = "res_" + k
         st["res"][k] = [int(i) for i in net[r].index] if r in net and isinstance(net[r], pd.DataFrame) else []
     st["res"]["bus"] = [int(i) for i in net.res_bus.index]
-    st["sw"] = [[int(i), _i(b), str(et), _i(e)] for i, b, et, e in
-                zip(net.switch.index, net.switch.bus.values, net.switch.et.values, net.switch.element.values)]
+    st["sw"] = [[int(i), _i(b), str(et), _i(e), bool(c)] for i, b, et, e, c in
+                zip(net.switch.index, net.switch.bus.values, net.switch.et.values, net.switch.element.values,
+                    net.switch.closed.values)]
     m = net.measurement
-    st["meas"] = [[int(i), str(t), _i(e), _side(s)] for i, t, e, s in
-                  zip(m.index, m.element_type.values, m.element.values, m.side.values)]
+    st["meas"] = [[int(i), str(t), _i(e), _side(s), str(mt)] for i, t, e, s, mt in
+                  zip(m.index, m.element_type.values, m.element.values, m.side.values, m.measurement_type.values)]
     for ct, key in (("poly_cost", "pcost"), ("pwl_cost", "wcost")):
         c = net[ct]
         st[key] = [[int(i), str(et), _i(e)] for i, et, e in zip(c.index, c.et.values, c.element.values)]
@@ -111,13 +112,13 @@ def dangling(st):
     extra = set(st["res"]["bus"]) - buses
     if extra:
         bad.append(("res-index:bus", "res_bus has %s" % sorted(extra)))
-    for sid, b, et, e in st["sw"]:
+    for sid, b, et, e, _closed in st["sw"]:
         if b not in buses:
             bad.append(("switch-bus", "switch %d bus %r" % (sid, b)))
         tgt = SWET.get(et)
         if tgt is None or e not in ids[tgt]:
             bad.append(("switch-element:%s" % et, "switch %d et=%s element %r" % (sid, et, e)))
-    for mid, t, e, s in st["meas"]:
+    for mid, t, e, s, _mt in st["meas"]:
         if t not in ids or e not in ids[t]:
             bad.append(("meas-element:%s" % t, "measurement %d %s %r" % (mid, t, e)))
         if isinstance(s, int) and s not in buses:
@@ -150,7 +151,7 @@ def _free(rng, used, hi):
             return i
 
 
-def gen_net(rng, nb=None, rich=True, with_res=True, facts=False):
+def gen_net(rng, nb=None, rich=True, with_res=True, facts=False, name_groups=True, groups=True, tchar=True):
     """small net with shuffled, gapped indices containing every reference kind"""
     nb = nb or rng.randint(4, 7)
     net = pp.create_empty_network()
@@ -243,13 +244,13 @@ def gen_net(rng, nb=None, rich=True, with_res=True, facts=False):
                 else:
                     pp.create_pwl_cost(net, int(e), k, [[0, 1, 1.0]], index=_free(rng, uc, 30))
     # groups (index based and name based)
-    for g in range(rng.randint(1, 3)):
+    for g in range(rng.randint(1, 3) if groups else 0):
         ets = rng.sample(["bus", "line", "trafo", "trafo3w", "load", "sgen", "gen", "switch", "impedance", "ext_grid", "ward", "xward"],
                          rng.randint(1, 4))
         ets = [e for e in ets if len(net[e])]
         if not ets:
             continue
-        byname = rng.random() < 0.3 and all(e != "switch" for e in ets)
+        byname = name_groups and rng.random() < 0.3 and all(e != "switch" for e in ets)
         mem = []
         for e in ets:
             ids = rng.sample(list(net[e].index), rng.randint(1, min(3, len(net[e]))))
@@ -269,7 +270,7 @@ def gen_net(rng, nb=None, rich=True, with_res=True, facts=False):
         if rng.random() < 0.5:
             ctl.DiscreteTapControl(net, int(ti), 0.98, 1.02, element="trafo3w", side="mv")
     # tap characteristic table
-    if rng.random() < 0.6:
+    if tchar and rng.random() < 0.6:
         nid = rng.randint(1, 2)
         ids = rng.sample(range(6), nid)
         rows = [(i, s) for i in ids for s in (-1, 0, 1)]
@@ -328,10 +329,12 @@ def apply_op(net, op, nets2=None):
             pp.create_impedance(net, buses[0], buses[1], rft_pu=0.0625, xft_pu=0.125, sn_mva=10, index=idx, name=nm)
         elif kind == "trafo":
             pp.create_transformer_from_parameters(net, buses[0], buses[1], sn_mva=25, vn_hv_kv=110, vn_lv_kv=20, vkr_percent=0.5,
-                                                  vk_percent=12, pfe_kw=10, i0_percent=0.1, index=idx, name=nm)
+                                                  vk_percent=12, pfe_kw=10, i0_percent=0.1, index=idx, name=nm, tap_side="hv", tap_neutral=0,
+                                                  tap_min=-2, tap_max=2, tap_step_percent=1.5, tap_pos=0)
         elif kind == "trafo3w":
             pp.create_transformer3w_from_parameters(net, buses[0], buses[1], buses[2], 110, 20, 10, 63, 25, 38, 10, 10, 10, .3, .3, .3,
-                                                    10, .1, index=idx, name=nm)
+                                                    10, .1, index=idx, name=nm, tap_side="hv", tap_neutral=0, tap_min=-2,
+                                                    tap_max=2, tap_step_percent=1.5, tap_pos=0)
         elif kind == "dcline":
             pp.create_dcline(net, buses[0], buses[1], p_mw=0.25, loss_percent=1.0, loss_mw=0.0, vm_from_pu=1.0, vm_to_pu=1.0,
                              index=idx, name=nm)
@@ -352,6 +355,20 @@ def apply_op(net, op, nets2=None):
             pp.create_poly_cost(net, el, et, cp1_eur_per_mw=1.0, index=idx)
         else:
             pp.create_pwl_cost(net, el, et, [[0, 1, 1.0]], index=idx)
+    elif o == "create_group":
+        _, gid, et, mem = op
+        pp.create_group(net, [et], [list(mem)], name="g%d" % gid, index=gid)
+    elif o == "create_ctrl":
+        _, kind, idx, single = op
+        if kind in ("trafo", "trafo3w"):
+            ctl.DiscreteTapControl(net, idx[0] if single else list(idx), 0.98, 1.02, element=kind,
+                                   side="lv" if kind == "trafo" else "mv")
+        else:
+            ctl.ConstControl(net, kind, "p_mw", idx[0] if single else list(idx))
+    elif o == "fill_res":                      # harness-only set-up: a result table whose index is the element index
+        for k in op[1]:
+            r = "res_bus" if k == "bus" else "res_" + k
+            net[r] = pd.DataFrame(0.0, index=net[k].index.copy(), columns=net[r].columns)
     elif o == "drop_buses":
         tb.drop_buses(net, list(op[1]), drop_elements=op[2])
     elif o == "drop_lines":
@@ -472,9 +489,10 @@ def gen_op(rng, net, allow=None, n_nets2=0):
         et = rng.choice(["gen", "sgen", "ext_grid", "load", "storage", "dcline"])
         if not len(net[et]):
             return gen_op(rng, net, allow, n_nets2)
-        return [o, rng.choice(["poly", "pwl"]), rng.randrange(60), et, int(rng.choice(list(net[et].index)))]
+        return [o, rng.choice(["poly", "pwl"]), rng.randrange(60), et,
+                int(rng.choice(list(net[et].index))) if rng.random() < 0.85 else rng.randrange(40)]
     if o == "drop_buses":
-        return [o, _some(rng, buses, 1, 2), rng.random() < 0.8]
+        return [o, _some(rng, buses, 1, 2), True]     # drop_elements=False asks for dangling elements: internal mode of fuse_buses
     if o == "drop_lines":
         return [o, _some(rng, net.line.index, 1, 2)]
     if o == "drop_trafos":
